@@ -38,8 +38,15 @@ RULE = (
     'same files as C12 (all 326 builder programs, pixel-count x chunk-size grid, 1..20 runs in '
     'direct / indirect / mixed mode, string sweep, row-selection x dtype-plan grid over the public '
     'keywords rows/row_units/n_dims/title/byteorder, metadata unit/dtype classes, array-size ladder, '
-    'BytesIO and real files); supplied values: float64 rows over 1e-30..1e29 of either sign with '
+    'BytesIO and real files, real paths that already hold a file, second create() of one builder); '
+    'supplied values: float64 rows over 1e-30..1e29 of either sign with '
     'forced {0, -0.0, float64 / float32 denormals, float32-exact, float32 halfway} in any convertible '
+    'input unit, and (class extreme) finite float64 over 1e-320..1e300, i.e. beyond both ends of the float32 '
+    'range, with forced {largest finite float32 and its float64 neighbours, the overflow threshold '
+    '2^128(1-2^-25) and its neighbours, 2^128, 1e39, 1e300, smallest float32 denormal, its rounding ties, '
+    'the normal/denormal boundary, values rounding to zero}, also placed so that only the CONVERTED value '
+    'crosses the end of the range (conversion factor > 1 and < 1, default and non-default declared units), '
+    'in coordinates, signal and variances; '
     'input unit, float32 / int32 / int64 rows in the declared unit of the row, every row of one dtype, '
     'extra per-pixel coordinates; energies / angles / axis quantities as float64, float32 or integers '
     'in meV|ueV|eV, deg|rad, 1/angstrom|1/nm, or already in the written unit and dtype (then the same '
@@ -55,8 +62,12 @@ ASSUMPTIONS = [
     'the rows of the pixel block are the rows the rows keyword selects, in that order, converted to the '
     'units of row_units; data_range has one (min, max) pair per selected row; a second build from the '
     'same model objects must store the same supplied values',
-    '"rounded once to float32": the stored value is at least as close to the exactly converted '
-    'value as the correctly rounded float32, up to 2^-50 relative for the float64 conversion step',
+    '"rounded once to float32": the correctly rounded IEEE (round-to-nearest-even) float32 of the exactly '
+    'converted value: +-inf from the overflow threshold 2^128(1-2^-25) on, denormals and zero at the small end. '
+    'A row supplied in its declared unit must hold exactly that value; a converted row must be at least as close '
+    'to the exact value as the correctly rounded float32 up to 2^-50 relative for the float64 conversion step '
+    '(within that band around the overflow threshold inf and the largest finite float32 are both accepted)',
+    'supplied values are finite and their converted value is below the float64 maximum',
 ]
 TECHNIQUE = ('runtime artefact monitor on SqwBuilder.create + independent SQW decoder compared with the '
              'supplied models (80-bit unit conversion); reader differential incl. unit-dimension monitor')
@@ -73,6 +84,11 @@ LD = np.longdouble
 EPS64 = float(np.finfo(np.float64).eps)
 TOL64 = 8 * EPS64          # float64 unit conversion (one multiplication, pi/180 factor)
 SLACK_CONV = LD(2.0) ** -50
+# float32 range: largest finite value; round-to-nearest-even overflow threshold 2^128 (1 - 2^-25)
+# (an exact value of at least this magnitude rounds to +-inf); smallest normal value
+F32MAX = np.float32(np.finfo(np.float32).max)
+F32_OVERFLOW = LD(2.0) ** 128 - LD(2.0) ** 103
+F32_TINY = LD(2.0) ** -126
 
 DIM_NAMES = {
     (1, 0, 0, 0, 0): 'length', (-1, 0, 0, 0, 0): '1/length', (2, 1, -2, 0, 0): 'energy',
@@ -564,29 +580,87 @@ def judge_pixels(j, f, case, spec, buf, trace, full_filename):
     ctx.event('content:pixels', int(avail) * nr)
     for i, name in enumerate(names):
         exact = rows_exact[i][:avail]
+        raw = rows_raw[i][:avail]
         got = data[:, i]
-        want32 = exact.astype(np.float32)
+        unit_in = spec['pix']['rows'][name]['unit']
+        converted = bool(unit_in != units[i])
+        # "rounded once to float32": the correctly rounded (IEEE round-to-nearest-even) float32 of the
+        # exactly converted value -- +-inf from the overflow threshold on, denormals / zero at the small
+        # end.  A row that needs no conversion must hold exactly that value.  A converted row went
+        # through one float64 conversion first (2^-50 relative): the stored value must be at least as
+        # close to the exact value as the correctly rounded one up to that slack, and within the slack
+        # around the overflow threshold both the largest finite float32 and inf are accepted (undecided).
+        slack = SLACK_CONV if converted else LD(0)
+        with np.errstate(over='ignore'):
+            want32 = exact.astype(np.float32)
+        mag = np.abs(exact)
+        must_inf = mag >= F32_OVERFLOW * (1 + slack)
+        finite = mag < F32_OVERFLOW * (1 - slack) if converted else ~must_inf
+        band = ~(must_inf | finite)
         g = got.astype(LD)
-        near = np.abs(g - exact) <= np.abs(want32.astype(LD) - exact) + np.abs(exact) * SLACK_CONV
-        ok = (got == want32) | near
+        ok = np.ones(exact.shape, dtype=bool)
+        ok[must_inf] = got[must_inf] == want32[must_inf]           # +-inf of the sign of the value
+        if converted:
+            with np.errstate(invalid='ignore'):
+                near = np.isfinite(got) & (np.abs(g - exact) <= np.abs(want32.astype(LD) - exact) + mag * slack)
+            ok[finite] = ((got == want32) | near)[finite]
+            edge = np.isinf(got) | (np.abs(got) == F32MAX)
+            ok[band] = (edge & (np.sign(g) == np.sign(exact)))[band]
+            if band.any():
+                ctx.count('undecided:float32_overflow_threshold_after_conversion', int(band.sum()))
+        else:
+            ok[finite] = (got == want32)[finite]
+        # classes of the float32 range actually judged
+        if must_inf.any():
+            ctx.event('content:pixels_beyond_float32', int(must_inf.sum()))
+            if (exact[must_inf] > 0).any():
+                ctx.hit('f32_overflow:+inf')
+            if (exact[must_inf] < 0).any():
+                ctx.hit('f32_overflow:-inf')
+            if name == 'error':
+                ctx.hit('f32_overflow:variance')
+            if name == 'signal':
+                ctx.hit('f32_overflow:signal')
+            if converted and (np.abs(raw[must_inf].astype(LD)) < F32_OVERFLOW).any():
+                ctx.hit('f32_overflow:only_after_unit_conversion')
+        if case['values'] == 'extreme':
+            if converted and (finite & (np.abs(raw.astype(LD)) >= F32_OVERFLOW)).any():
+                ctx.hit('f32_finite:only_after_unit_conversion')
+            if not converted and (mag == F32_OVERFLOW).any():
+                ctx.hit('f32_overflow:tie_at_threshold')
+            if (finite & (np.abs(want32) == F32MAX)).any():
+                ctx.hit('f32_max:rounds_to_largest_finite')
+            if (mag == LD(F32MAX)).any():
+                ctx.hit('f32_max:exact')
+            if ((mag > 0) & (want32 == 0)).any():
+                ctx.hit('f32_underflow:to_zero')
+            if ((want32 != 0) & (np.abs(want32.astype(LD)) < F32_TINY)).any():
+                ctx.hit('f32_underflow:denormal')
         if exact.size:
-            with np.errstate(divide='ignore', invalid='ignore'):
-                ulps = np.abs(g - exact) / np.maximum(np.spacing(np.abs(want32)).astype(LD), LD(1e-45))
-            ctx.dev('pixel.err_in_float32_ulps', float(np.max(np.where(np.isfinite(ulps), ulps, LD(1e30)))))
+            fin = finite & np.isfinite(got)
+            if fin.any():
+                ulps = np.abs(g[fin] - exact[fin]) / np.maximum(np.spacing(np.abs(want32[fin])).astype(LD), LD(1e-45))
+                ctx.dev('pixel.err_in_float32_ulps', float(np.max(ulps)))
         if not np.all(ok):
             k = int(np.argmin(ok))
-            raw32 = rows_raw[i][:avail].astype(np.float32)
-            unit_in = spec['pix']['rows'][name]['unit']
+            with np.errstate(over='ignore'):
+                raw32 = raw.astype(np.float32)
             mech = 'pixel_value'
-            if unit_in != units[i] and np.array_equal(got, raw32):
+            if converted and np.array_equal(got, raw32):
                 mech = 'row_written_in_input_unit'
             elif np.array_equal(got.view(np.uint32).byteswap(), want32.view(np.uint32)):
                 mech = 'pixel_byteorder'
+            elif must_inf[k] and np.isfinite(got[k]):
+                mech = 'overflow_not_inf'
+            elif finite[k] and not np.isfinite(got[k]):
+                mech = 'finite_value_stored_as_inf'
+            elif not converted:
+                mech = 'not_correctly_rounded'
             rname = name if name in W.ROWS else 'extra'
             j.bad('pixel_value', 'pix/data_wrap', rname,
                   f'pixel {k} of row {name}: stored {got[k]!r}, supplied {rows_raw[i][k]!r} {unit_in} = '
                   f'{float(exact[k])!r} {units[i]} -> float32 {want32[k]!r}',
-                  mechanism=mech, converted=bool(unit_in != units[i]))
+                  mechanism=mech, converted=converted)
 
 
 def judge_content(ctx, case, spec, target, buf, trace):
@@ -730,8 +804,11 @@ def read_back(ctx, S, sc, case, spec, target, f, buf, trace=None):
     bo = W.resolved(case['byteorder'])
     if isinstance(target, io.BytesIO):
         target.seek(0)
+    form = W.REOPEN_FORMS[sum(case['vseed']) % 3]
+    kw = {} if form == 'deduced' else {'byteorder': bo if form == 'str' else S.Byteorder[bo]}
+    ctx.hit('reader_open:byteorder_' + form)
     try:
-        cm = S.Sqw.open(target)
+        cm = S.Sqw.open(target, **kw)
         sqw = cm.__enter__()
     except Exception as e:  # noqa: BLE001
         ctx.violation('reader_open_raised', f'Sqw.open raised {type(e).__name__}: {e}', cs, mechanism='open')
@@ -917,10 +994,17 @@ def requirements(tier):
     return {
         'events': {'content:files': 300, 'content:string': 2000, 'content:number': 4000,
                    'content:runs': 500, 'content:pixel_blocks': 200, 'content:pixels': 100000,
+                   'content:pixels_beyond_float32': 200,
                    'content:data_range': 100, 'content:histogram': 200, 'reader:blocks': 2000,
                    'reader:variable': 2000, 'reader:unit_dimension': 2000, 'reader:plain': 2000},
-        'forced': W.FORCED + ['value:forced', 'value:wide', 'row_unit_converted', 'row_float32',
-                              'row_int_in_float_row', 'angle_deg', 'angle_rad', 'lattice_nm'],
+        'forced': W.FORCED + ['value:forced', 'value:wide', 'value:extreme', 'row_unit_converted', 'row_float32',
+                              'row_int_in_float_row', 'angle_deg', 'angle_rad', 'lattice_nm',
+                              'f32_overflow:+inf', 'f32_overflow:-inf', 'f32_overflow:variance',
+                              'f32_overflow:signal', 'f32_overflow:only_after_unit_conversion',
+                              'f32_finite:only_after_unit_conversion', 'f32_overflow:tie_at_threshold',
+                              'f32_max:rounds_to_largest_finite', 'f32_max:exact', 'f32_underflow:to_zero',
+                              'f32_underflow:denormal', 'reader_open:byteorder_deduced',
+                              'reader_open:byteorder_str', 'reader_open:byteorder_enum'],
     }
 
 
@@ -979,17 +1063,20 @@ def run(shard, ctx):
     try:
         with tr:
             for it in items:
+                session = {}
                 for case0 in it['cases']:
                     rng = np.random.Generator(np.random.PCG64(case0['vseed']))
                     spec = W.gen_spec(rng, case0)
-                    models = W.build_models(S, sc, spec, case0['program'])
+                    case0, spec = W.continue_from(session, case0, spec)
+                    models = W.build_models(S, sc, spec, case0.get('calls', case0['program']))
                     W.describe_rows(case0, spec)
                     for case in W.case_reps(case0):
-                        target = W.target_for(case, tmpdir, rng)
+                        target = W.open_target(case, tmpdir, rng, session)
                         state.update(case=case, target=target, spec=spec, file=None, buf=None, judged=False)
                         before = ctx.n_violations
                         try:
-                            W.run_program(S, case, spec, models, target)
+                            W.run_program(S, case, spec, models, target,
+                                          session if case.get('reuse_path') else None)
                         except Exception as e:  # noqa: BLE001  (create: judged by the monitor, PY_UNWIND)
                             if not state['judged']:
                                 # a valid builder program did not get as far as create()
@@ -1004,21 +1091,19 @@ def run(shard, ctx):
                                 ctx.oracle_error('C13 read_back')
                         elif not state['judged']:
                             ctx.count('create_not_observed')
+                        W.close_case(session, case, spec, target, f)
                         W.hit_forced(ctx, case, spec)
                         hit_values(ctx, case, spec)
                         ctx.case((*W.signature(case, spec), case['values']),
-                                 trivial=(not case['program'] and case['byteorder'] == 'native'))
+                                 trivial=(not case['program'] and case['byteorder'] == 'native'
+                                          and case.get('existing') is None))
                         if ctx.n_violations > before or (it['item'] % 97 == 0 and case0 is it['cases'][0]):
                             ctx.sample(W.case_summary(case))
-                        if not isinstance(target, io.BytesIO):
-                            try:
-                                os.remove(target)
-                            except OSError:
-                                pass
                         state.update(target=None, file=None, buf=None, trace=None)
                         del target, f
                     state['spec'] = None
                     del spec, models
+                W.close_item(session)
     finally:
         shutil.rmtree(tmpdir, ignore_errors=True)
 
